@@ -11,6 +11,7 @@ coq_imports = ["Model.Base", "Model.Events", "Model.Tracing", "Check.C20Check"]
 case_type = "tcase"
 model_name = "Tracing.texec (the log-forwarding protocol)"
 monitor_name = "C20Check.c20_ok"
+also = ["C20b"]   # which scenario an event is attributed to: the lookup of the real layers vs the attribution model
 sub_names = {1: "the ordered history of one run with init_tracing()"}
 rule = ("cases = 1-5 scenarios (1-3 steps each, @retry(N) with failing first attempts or none) whose step bodies emit 0-3 tracing "
         "events before and 0-2 after an await point that yields 0-3 (a third of the steps: 9 or 14) times (30% of the cases have one chatty step with a burst of 26-89 "
